@@ -130,6 +130,7 @@ func (vc *VC) callModular(fr *Frame, st *State, fn *ssa.Function, fc *FuncContra
 				continue
 			}
 			vc.havocCell(st, c)
+			st.extWrites++
 			if vc.writeLog != nil {
 				vc.writeLog[c] = true
 			}
@@ -144,6 +145,14 @@ func (vc *VC) callModular(fr *Frame, st *State, fn *ssa.Function, fc *FuncContra
 		// constants, so repeated evaluation in specs and bodies denotes one value
 		key := funcSym(fn)
 		for _, a := range args {
+			if fv, ok := a.(FuncVal); ok {
+				if fv.Fn != nil {
+					key += "|" + funcSym(fv.Fn)
+				} else {
+					key += "|" + fv.Sym
+				}
+				continue
+			}
 			for _, t := range vc.flattenVal(a) {
 				key += "|" + t.E
 			}
@@ -170,7 +179,7 @@ func (vc *VC) callModular(fr *Frame, st *State, fn *ssa.Function, fc *FuncContra
 			continue
 		}
 		t := vc.evalSpecTerm(cf, st, c.Expr, bound)
-		st.Assume(t)
+		st.Fact(t)
 	}
 	outs = append(outs, Outcome{St: st, Ret: rets})
 	return outs
